@@ -173,6 +173,7 @@ fn apply(s: &mut Session, cur: &mut Option<usize>, op: &Op, strategies: &[String
 fn execute(prog: Program) -> Outcome {
     let mut out = Outcome { setup: Err("boot".into()), violations: vec![], full_sync: false, compared_keys: 0 };
     let w = World::new_split(2, prog.split_addr);
+    maybe_segment(3, true);
     let addrs = w.all_tcp();
     w.boot(0, &addrs);
     if !w.wait_primary(0, 5_000) {
@@ -513,6 +514,7 @@ fn key_class(k: &str) -> &'static str {
 fn execute_fresh(prog: Fresh) -> Outcome {
     let mut out = Outcome { setup: Err("boot".into()), violations: vec![], full_sync: true, compared_keys: 0 };
     let w = World::new_split(2, prog.split_addr);
+    maybe_segment(3, true);
     let addrs = w.all_tcp();
     w.boot(0, &addrs);
     if !w.wait_primary(0, 5_000) {
